@@ -185,6 +185,10 @@ class PendingIf(_PendingCompoundStmt[If]):
         if self.nsp_global.configs.if_style == "short_circuit":
             if len(self.converted_orelse) > 0:
                 body_or_true = BoolOp(op=Or(), values=[body, Constant(value=1)])
+                # `test and ...` evaluates to `test` itself when it is false,
+                # `... or orelse` would check the truth value of `test` again.
+                # `not not test` makes sure the truth value is checked only once
+                test = UnaryOp(op=Not(), operand=UnaryOp(op=Not(), operand=test))
                 semi_if = BoolOp(op=And(), values=[test, body_or_true])
                 return [BoolOp(op=Or(), values=[semi_if, orelse])]
             else:
